@@ -241,8 +241,8 @@ class Check(object):
         drifts = []
         for ((t, r), (v, step)) in pairs:
             self.replayed += 1
-            got = project(r["trace"])
-            exp = exp_by_id[id(t)]
+            got = norm_polled(project(r["trace"]))
+            exp = norm_polled(exp_by_id[id(t)])
             if got != exp or r.get("mismatch"):
                 self.drift += 1
                 if len(drifts) < 3:
@@ -321,6 +321,24 @@ class Check(object):
         print("OK property=%s tier=%s states=%d traces_validated=%d distinct=%d wall=%.1fs" % (
             self.prop, self.tier, self.states, self.validated, len(self.distinct), wall))
         return 0
+
+
+POLLED = ("Observed", "DelegateState")
+
+
+def norm_polled(evs):
+    """State changes of futures are observed by polling at the end of a step; the order in which several of
+    them are reported within one step is an artefact: sort each run of consecutive polled events."""
+    out, run = [], []
+    for e in evs:
+        if e[0] in POLLED:
+            run.append(e)
+        else:
+            out.extend(sorted(run))
+            run = []
+            out.append(e)
+    out.extend(sorted(run))
+    return out
 
 
 def _short(s):
